@@ -144,6 +144,32 @@ func VerifH_C10_graph_determined_by_cert_set() {
 	vr.Cover("done")
 }
 
+// C10 with three certificates of which two certify the same (subject, key) pair — the
+// shape in which one issuer holds several edges to one child, or a self-signed child is
+// cross-signed later — in two insertion orders (quick-tier companion of the harness
+// above, which reaches three certificates only in the thorough tier).
+// verif: covers=done
+func VerifH_C10_two_certificates_for_one_child() {
+	gSigStub()
+	certs := []*x509.Certificate{gCert(0), gCert(1), gCert(2)}
+	vr.Assume(gSameNode(certs[1], certs[2]))
+	isRoot := []bool{false, false, false}
+	g1 := NewGraph()
+	for i := 0; i < 3; i++ {
+		g1.AddCert(certs[i])
+	}
+	gCheckGraph(g1, certs, isRoot, "issuer first")
+	g2 := NewGraph()
+	for i := 2; i >= 0; i-- {
+		g2.AddCert(certs[i])
+	}
+	gCheckGraph(g2, certs, isRoot, "children first")
+	for _, c := range certs {
+		vr.Assert((g1.FindEdge(c.FingerprintSHA256).issuer == nil) == (g2.FindEdge(c.FingerprintSHA256).issuer == nil), "both orders agree on which edges have an issuer")
+	}
+	vr.Cover("done")
+}
+
 // gRefWalk enumerates the admissible paths from the statement of C11 over the
 // graph's own edges (whose meaning C10 establishes).
 func gRefWalk(g *Graph, chain []*GraphEdge, out *[][]*x509.Certificate) {
